@@ -164,6 +164,16 @@ def gen_full(rng, builtin_path):
                 deps = {f"v{a}"}
         created.append(i)
         program.contributions.append((f"v{i}", text, False, deps))
+    # a contribution whose body is a block nested 2-3 levels deep and whose INNERMOST binding refers
+    # to a sibling of the outermost one: the dependency must reach the outer block's graph
+    ints_now = [j for j in created if value_types[j][0] == "int"]
+    if ints_now and rng.chance(1, 2):
+        a = rng.pick(ints_now)
+        depth = rng.range(2, 3)
+        inner = f"v{a}"
+        for level in range(depth, 0, -1):
+            inner = f"begin let m{level} : Int64 = {inner} that m{level} end"
+        program.contributions.append(("n80", f"let n80 : Int64 = {inner}", False, {f"v{a}", "H2"}))
     # body: project one value down to its first Int64
     target = rng.pick(value_nodes)
 
@@ -593,6 +603,43 @@ def gen_faulty_definitions(rng, builtin_path):
             f"{body}  ! (stdio/write_line) \"defs\" {{ ! (process/exit) code }}\nend\n")
 
 
+def gen_unboxed_tuples(rng, builtin_path):
+    """Several let-bound tuples that are only ever projected (the lowering keeps them unboxed and
+    issues a slot per variable): slot numbering in `zasm`/`asm` must follow the program."""
+    count = rng.range(2, 6)
+    lines = [f'param ((/system) : @(import("{builtin_path}"))) in', "let (/process) = system in"]
+    names = []
+    for i in range(count):
+        name = "abcdefgh"[i] + str(rng.range(0, 9))
+        width = rng.range(2, 3)
+        values = ", ".join(str(rng.range(0, 40)) for _ in range(width))
+        parts = ", ".join(f"{name}p{k}" for k in range(width))
+        lines.append(f"let {name} = ({values}) in")
+        lines.append(f"let ({parts}) = {name} in")
+        names.append(f"{name}p{rng.below(width)}")
+    lines.append(f"! (process/exit) {rng.pick(names)}")
+    return "\n".join(lines) + "\n"
+
+
+def gen_bad_recursive_types(rng, builtin_path):
+    """One group of 2-5 mutually recursive data types of which at least two have an ill-kinded
+    constructor payload: which member is blamed must not depend on the process."""
+    count = rng.range(2, 5)
+    names = [f"T{i}{rng.range(0, 9)}" for i in range(count)]
+    bad = set(rng.pick(list(range(count))) for _ in range(count)) | {0, count - 1}
+    lines = ["begin", f'  param ((/core; /system) : @(import("{builtin_path}"))) that',
+             "  let (/VType; /Thk; /Ret; /Unit) = core that", "  let (/process) = system that"]
+    order = list(range(count))
+    rng.shuffle(order)
+    for i in order:
+        successor = names[(i + 1) % count]
+        payload = f"Ret {successor}" if i in bad else successor
+        lines.append(f"  def {names[i]} : VType = data | +Stop{i} : Unit | +Go{i} : {payload} end that")
+    lines.append("  ! (process/exit) 0")
+    lines.append("end")
+    return "\n".join(lines) + "\n"
+
+
 def write_block_corpus(tree, seed, count):
     """Extra corpus for C16: one shuffled rendering of `count` generated programs."""
     directory = os.path.join(tree, "lib", "zygen")
@@ -634,6 +681,17 @@ def write_block_corpus(tree, seed, count):
         rel = os.path.join("lib", "zygen", f"defs{index}.zy")
         with open(os.path.join(tree, rel), "w") as handle:
             handle.write(gen_faulty_definitions(rng, builtin))
+        written.append(rel)
+    for index in range(max(6, count // 3)):
+        rng = Rng(mix(seed, ENGINE, 8000 + index))
+        rel = os.path.join("lib", "zygen", f"unboxed{index}.zy")
+        with open(os.path.join(tree, rel), "w") as handle:
+            handle.write(gen_unboxed_tuples(rng, builtin))
+        written.append(rel)
+        rng = Rng(mix(seed, ENGINE, 9000 + index))
+        rel = os.path.join("lib", "zygen", f"rectypes{index}.zy")
+        with open(os.path.join(tree, rel), "w") as handle:
+            handle.write(gen_bad_recursive_types(rng, builtin))
         written.append(rel)
     for index in range(max(4, count // 4)):
         rng = Rng(mix(seed, ENGINE, 3000 + index))
